@@ -1,3 +1,5 @@
+pub mod cli;
+pub mod pure;
 pub mod srv;
 
 use crate::runner::*;
@@ -119,8 +121,136 @@ pub fn property(id: &str) -> Option<Property> {
             })],
             hang: HangPolicy::Inconclusive,
         },
+        "C03" => Property {
+            id: "C03",
+            level: "exploration",
+            rule: "proptest-generated client sessions (MBAP and RTU): 1..6 requests of all eight kinds, arguments built only through the public constructors, (start,count) from a lattice around every protocol limit and around 65535/65536 plus random, value vectors up to 70000 elements, three submission styles (future, CallbackSession, FfiChannel), all unit ids; the peer answers genuinely. Oracle = reference encoder: accepted iff count>=1, start+count<=65536, count<=2000/125/1968/123; accept => exactly one frame equal to the reference encoding (<=260/256 bytes), reject => an error and zero bytes on the wire. Plus the AddressRange constructor grid. Non-trivial = request with count within 2 of its limit or range ending at 65535/65536; distinct by hash.",
+            assumptions: SIM_ASSUMPTIONS_CLI,
+            searches: vec![
+                Box::new(Search {
+                    name: "c03_requests",
+                    rule: "see property rule",
+                    quick: 60_000,
+                    thorough: 1_500_000,
+                    strategy: cli::arb_c03,
+                    check: cli::check_c03,
+                    floors: &[("near_limit", 0.30), ("model:reject", 0.20), ("model:accept", 0.50), ("framing:rtu", 0.30)],
+                    known: &[],
+                    hang_secs: 120,
+                    max_threads: 64,
+                }),
+                Box::new(Enumeration {
+                    name: "c03_range_grid",
+                    run: pure::c03_grid,
+                    replay: pure::c03_grid_replay,
+                }),
+            ],
+            hang: HangPolicy::Inconclusive,
+        },
+        "C04" => Property {
+            id: "C04",
+            level: "exploration",
+            rule: "proptest: one outstanding request (eight kinds, lattice ranges, three submission styles, MBAP/RTU) x one reply PDU: the genuine reply or a mutation (function code replaced incl. fc|0x80 and other|0x80, truncated/extended by 1..3 bytes, one bit of any body byte flipped, byte-count field altered, coil echo outside {0,FF00}, exception with 0/1/2 code bytes and any code, empty, 0..253 random bytes), delivered with the right transaction id / CRC. Oracle = reply classifier (Ok with exactly the encoded values / exactly that exception / any non-exception error). Non-trivial = reply with the genuine length that is not genuine, or right function code with length off by <=3.",
+            assumptions: SIM_ASSUMPTIONS_CLI,
+            searches: vec![Box::new(Search {
+                name: "c04_replies",
+                rule: "see property rule",
+                quick: 150_000,
+                thorough: 4_000_000,
+                strategy: cli::arb_c04,
+                check: cli::check_c04,
+                floors: &[("one_field_off", 0.15), ("class:ok", 0.10), ("class:exception", 0.05), ("class:other_error", 0.30), ("framing:rtu", 0.30)],
+                known: &[],
+                hang_secs: 120,
+                max_threads: 64,
+            })],
+            hang: HangPolicy::Inconclusive,
+        },
+        "C11" => Property {
+            id: "C11",
+            level: "exploration",
+            rule: "proptest: MBAP client with 1..8 queued requests; the scripted peer answers each transmitted frame with 0..3 frames (genuine, stale/future by 1, 2, 255, 256, 32768, 65535, duplicates, split frames) at delays just before / just after the deadline, plus frames sent while idle. Oracle = stream model: transaction ids 0,1,2,.. in submission order, next request never transmitted before the previous completed, each result is the one derived from the first frame carrying its id before its deadline, else timeout at the deadline. Plus one 70 000-request run across the 16-bit wrap. Non-trivial = a well-formed frame with a wrong id and the right function code arrived while a request was outstanding.",
+            assumptions: SIM_ASSUMPTIONS_CLI,
+            searches: vec![
+                Box::new(Search {
+                    name: "c11_streams",
+                    rule: "see property rule",
+                    quick: 60_000,
+                    thorough: 1_500_000,
+                    strategy: cli::arb_c11,
+                    check: cli::check_c11,
+                    floors: &[("wrong_tx_right_fc_while_outstanding", 0.30)],
+                    known: &[],
+                    hang_secs: 120,
+                    max_threads: 64,
+                }),
+                Box::new(Enumeration {
+                    name: "c11_wrap",
+                    run: c11_wrap,
+                    replay: c11_wrap_replay,
+                }),
+            ],
+            hang: HangPolicy::Inconclusive,
+        },
+        "C12" => Property {
+            id: "C12",
+            level: "exploration",
+            rule: "proptest on the paused clock (ms resolution): 1..12 requests with per-request timeouts in [1 ms, 60 s], replies completing at T-1, T+1 or random offsets, replies split so that the last byte lands after the deadline, outcome classes {nothing, success, exception, bad reply}, consecutive-timeout limit N in {none, 1..5}, MBAP and RTU. Oracle = deadline arithmetic on virtual time (completion instant equality) and the consecutive-timeout counter model (connection dropped exactly at the N-th timeout in a row). Replies completing exactly at the deadline are not judged. Non-trivial = >=2 timeouts separated by another outcome with N>=2.",
+            assumptions: SIM_ASSUMPTIONS_CLI,
+            searches: vec![Box::new(Search {
+                name: "c12_deadlines",
+                rule: "see property rule",
+                quick: 60_000,
+                thorough: 1_500_000,
+                strategy: cli::arb_c12,
+                check: cli::check_c12,
+                floors: &[("has_timeout", 0.40), ("limit:reached", 0.10), ("timeouts_separated_by_other_outcome", 0.05), ("framing:rtu", 0.30)],
+                known: &[],
+                hang_secs: 120,
+                max_threads: 64,
+            })],
+            hang: HangPolicy::Inconclusive,
+        },
         _ => return None,
     })
 }
 
-pub const ALL: &[&str] = &["C01", "C02", "C08", "C17"];
+fn c11_wrap(ctx: &Ctx) -> SearchReport {
+    let mut rep = SearchReport::empty(
+        "c11_wrap",
+        "one sequential run of 70 000 (quick) / 140 000 (thorough) requests against a peer echoing the transaction id: ids must be i mod 65536 and every request must succeed",
+    );
+    let n = match ctx.tier {
+        Tier::Quick => 70_000,
+        Tier::Thorough => 140_000,
+    };
+    rep.stats.evaluations = 1;
+    match cli::c11_wrap_run(n) {
+        Ok(_) => {
+            rep.stats.nontrivial_total = 1;
+            rep.stats.distinct.insert(n as u64);
+            rep.stats.samples.push(serde_json::json!({"requests": n}));
+        }
+        Err(m) => {
+            rep.failure = Some(Failure {
+                message: m,
+                case: serde_json::json!({"requests": n}),
+                hang: false,
+            })
+        }
+    }
+    rep
+}
+
+fn c11_wrap_replay(v: &serde_json::Value) -> CaseResult {
+    cli::c11_wrap_run(v["requests"].as_u64().unwrap_or(70_000) as usize)
+}
+
+const SIM_ASSUMPTIONS_CLI: &[&str] = &[
+    "the production ClientLoop / FrameWriter / FramedReader are constructed by rodbus::verif::client_session exactly as tcp/client.rs and serial/client.rs do; the in-memory transport replaces the socket only",
+    "request arguments are built only through the public constructors (AddressRange::try_from, WriteMultiple::from, Indexed::new); struct-literal AddressRange values are outside the property's domain",
+    "virtual time: current-thread tokio runtime with the clock paused; tokio select! tie-breaks pinned by a generated seed; events that coincide to the millisecond with a deadline or a transmission are not judged (counted as don't-care)",
+    "the byte-count field of read replies is not part of the statement's acceptance conditions: accepted-with-the-encoded-values and rejected are both allowed (counted)",
+];
+
+pub const ALL: &[&str] = &["C01", "C02", "C03", "C04", "C08", "C11", "C12", "C17"];
